@@ -45,7 +45,7 @@ void *nondet_ptr(void);
 #ifdef VERIF_COVER_PASS
 #define VERIF_COVER(c)		__CPROVER_cover(c)
 #else
-#define VERIF_COVER(c)		do { } while (0)
+#define VERIF_COVER(c)		((void) 0)
 #endif
 #endif
 
